@@ -902,3 +902,20 @@ Fixpoint lc_mismatches_from (i : nat) (cases : list (list call * list event)) : 
   | (cs, tr) :: r => (if accepts_default cs tr then [] else [i]) ++ lc_mismatches_from (S i) r
   end.
 Definition lc_mismatches := lc_mismatches_from 0.
+
+(** ** Well-formed call sequences (for [no_deadlock])
+
+    WaitWhileSearching on an infinite / ponder search that nobody stops blocks forever by design.  A call
+    sequence is well formed when no CWait is issued while such a search may be running: [r] = "an infinite
+    or ponder search may be running un-stopped"; it is set by every CStart of such a search (accepted or
+    not - conservative), cleared only by CStop / CNewGame (a PonderHit is conservatively NOT counted as a
+    stop).  Sequences without CWait - everything the UCI command loop can issue - are always well formed. *)
+Fixpoint wfr (r : bool) (cs : list call) : bool :=
+  match cs with
+  | [] => true
+  | CWait :: l => negb r && wfr false l
+  | (CStop | CNewGame) :: l => wfr false l
+  | CStart lim :: l => wfr (r || (lPonder lim || lInfinite lim)) l
+  | _ :: l => wfr r l
+  end.
+Definition well_formed_calls (cs : list call) : bool := wfr false cs.
